@@ -38,6 +38,9 @@ class CPoint:
 
 
 KEYEXPR = {"alias": "AL", "exact": "List[int]", "origin": "list"}
+# NewType chain UserId -> Id -> int: each alias is offered to the customization lookup in turn, so the three key slots
+# are the outer alias, the intermediate alias and the underlying type (same specificity order)
+KEYEXPR_NT = {"alias": "UserId", "exact": "Id", "origin": "int"}
 
 
 def marker(level, key, direction):
@@ -50,7 +53,9 @@ def sname(level, key):
 
 def class_source(p: CPoint):
     src = [g4.PRELUDE, "from mashumaro.types import SerializationStrategy", "from mashumaro.config import ADD_DIALECT_SUPPORT",
-           "AL = Annotated[List[int], 'alias']"]
+           "AL = Annotated[List[int], 'alias']", "Id = NewType('Id', int)", "UserId = NewType('UserId', Id)"]
+    if p.tname == "NT":
+        src.append("AL = UserId  # the field's annotation in the NewType-chain variant")
     regs = {}
     for (level, key, kind) in p.regs:
         for d in ("ser", "de"):
@@ -73,8 +78,10 @@ def class_source(p: CPoint):
             return "pass_through"
         return f"{sname(level, key)}_inst"
 
+    kx = KEYEXPR_NT if p.tname == "NT" else KEYEXPR
+
     def ssdict(level):
-        items = [f"{KEYEXPR[k]}: {regexpr(level, k, kind)}" for (l, k), kind in regs.items() if l == level]
+        items = [f"{kx[k]}: {regexpr(level, k, kind)}" for (l, k), kind in regs.items() if l == level]
         return "{" + ", ".join(items) + "}"
 
     for level, cname in (("call", "CallD"), ("cfgd", "CfgD"), ("fmt", "FmtD")):
@@ -89,7 +96,7 @@ def class_source(p: CPoint):
                 md += [f"'serialize': {marker(l, k, 'ser')}", f"'deserialize': {marker(l, k, 'de')}"]
         if l == "fstrategy":
             md.append(f"'serialization_strategy': {regexpr(l, k, kind)}")
-    ann = "AL" if p.tname == "AL" else "Annotated[_GT, 'alias']"
+    ann = "Annotated[_GT, 'alias']" if p.tname == "GEN" else "AL"
     fld = f"x: {ann} = field(metadata={{{', '.join(md)}}})" if md else f"x: {ann}"
     mixin = "DataClassDictMixin" if p.entry == "mixin" else ""
     if p.tname == "GEN":
@@ -104,9 +111,9 @@ def class_source(p: CPoint):
     if p.entry == "mixin" and any(l == "call" for (l, _) in regs):
         src.append("        code_generation_options = [ADD_DIALECT_SUPPORT]")
     if p.entry == "mixin":
-        src.append("INST = C([1, 2])")
+        src.append("INST = C(5)" if p.tname == "NT" else "INST = C([1, 2])")
         if any(l == "call" for (l, _) in regs):
-            src += ["try:", "    INST.to_dict(dialect=CallD)", "    C.from_dict({'x': [1]}, dialect=CallD)", "except Exception as _e:", "    FIRST_CALL_ERROR = _e"]
+            src += ["try:", "    INST.to_dict(dialect=CallD)", "    C.from_dict({'x': 1 if AL is UserId else [1]}, dialect=CallD)", "except Exception as _e:", "    FIRST_CALL_ERROR = _e"]
     else:
         dd = ", default_dialect=FmtD" if any(l == "fmt" for (l, _) in regs) else ""
         src += ["from mashumaro.codecs.basic import BasicDecoder, BasicEncoder", f"DEC = BasicDecoder(C{dd})", f"ENC = BasicEncoder(C{dd})"]
@@ -259,6 +266,9 @@ def lattice(tier, seed=0):
     for q in list(pts):
         if len(q.regs) <= 2 and all(kind in ("dict", "strategy") for (_, _, kind) in q.regs) and (tier == "thorough" or zlib.crc32(q.label().encode()) % 2 == 0 or len(q.regs) == 1):
             pts.append(CPoint(q.regs, q.entry, "GEN"))
+    for q in list(pts):
+        if q.tname == "AL" and len(q.regs) <= 2 and (tier == "thorough" or zlib.crc32(("nt" + q.label()).encode()) % 2 == 0 or len(q.regs) == 1):
+            pts.append(CPoint(q.regs, q.entry, "NT"))
     seen, out = set(), []
     for p in pts:
         if p.label() not in seen and valid(p):
